@@ -37,6 +37,8 @@ IDENTIFYING = {
     'LexicalEntry': ('id',),
     'ExternalLexicalEntry': ('id',),
     'ExternalForm': ('id',),
+    'Lemma': ('writtenForm',),       # the written form is what identifies a (non-external) form
+    'Form': ('writtenForm',),
     'Sense': ('id', 'synset'),
     'ExternalSense': ('id',),
     'Synset': ('id',),
